@@ -79,7 +79,7 @@ class C02(Property):
 
     def coverage_gaps(self, counters, tier):
         need = ["updates_judged", "requests_compared", "justification_chain_len_1", "justification_chain_len_2", "justification_chain_len_3",
-                "compositions_with_multi_delay_links", "compositions_with_parallel_links"]
+                "compositions_with_multi_delay_links", "compositions_with_parallel_links", "links_with_user_defined_delay_adapter"]
         gaps = [f"{k} never observed" for k in need if not counters.get(k)]
         if counters.get("aborted_runs", 0) > 0.05 * max(1, counters.get("compositions", 0)):
             gaps.append(f"{counters.get('aborted_runs')} of {counters.get('compositions')} runs aborted for reasons outside this property")
